@@ -544,27 +544,6 @@ def afs_case(draw):
     return case
 
 
-KEY_AFS_GAP = "afs.branch_node_gains_parent_after_gap"
-
-
-def _gains_parent_after_gap(spec):
-    ivs = O.tree_intervals(spec)
-    for (a0, b0, p0), (a1, b1, p1) in zip(ivs[:-1], ivs[1:]):
-        if any(p1[u] >= 0 and p0[u] < 0 for u in range(len(p0))):
-            return True
-    return False
-
-
-def classify_afs(case, exc):
-    """Branch-mode AFS: a node that has no parent on the tree to the left of an edge's left end
-    (missing left flank, gap, root becoming a child) is credited with the span since its previous
-    update instead of the span since the edge begins (tsk_treeseq_branch_allele_frequency_spectrum
-    does not reset last_update[child] when an edge is inserted)."""
-    if case.get("mode") == "branch" and str(exc).startswith("afs[branch]") and _gains_parent_after_gap(case["spec"]):
-        return KEY_AFS_GAP
-    return None
-
-
 def run_afs(case, ctx):
     import tskit
 
@@ -679,6 +658,9 @@ def weighted_case(draw):
             idx = None
         case.update(form=form, indexes=idx)
     if stat == "genetic_relatedness_vector":
+        # span_normalise=True is the open known finding KEY_GRV_SPAN (the C function ignores the
+        # option); it is kept out of the search by construction and re-executed by the probe
+        case["span_normalise"] = False
         case["centre"] = draw(st.booleans())
         nn = len(spec["nodes"])
         if not case["centre"] and draw(st.integers(0, 2)) > 0:
@@ -841,44 +823,612 @@ def run_weighted(case, ctx):
         ctx.close(got, expected(coarse, True), "genetic_relatedness_vector span_normalise=True")
 
 
-def _dev(run, classify):  # DEV ONLY (remove before delivery)
-    import os
 
-    def wrapped(case, ctx):
-        try:
-            run(case, ctx)
-        except Exception as e:
-            if os.environ.get("VF_C08_DEV_OPEN") and classify(case, e):
-                ctx.label("DEV_excluded")
+# ------------------------------------------------------------------ (C)+(E) divergence_matrix / genetic_relatedness_matrix
+THREADS = [0, 0, 1, 2, 3, 8]
+
+
+@st.composite
+def matrix_case(draw):
+    spec = draw(stat_spec(min_samples=draw(st.sampled_from([2, 3, 4, 5, 6])), max_nodes=10))
+    smp = model.samples(spec)
+    L = F(spec["L"])
+    case = dict(spec=spec)
+    case["stat"] = draw(st.sampled_from(["divergence_matrix", "genetic_relatedness_matrix"]))
+    case["mode"] = draw(st.sampled_from(["site", "branch"] + (
+        ["branch"] if case["stat"] == "genetic_relatedness_matrix" else [])))
+    case["span_normalise"] = draw(st.booleans())
+    case["kind"], case["coarse"], case["fine"] = draw_windows(draw, spec)
+    if case["stat"] == "divergence_matrix" and draw(st.booleans()):
+        # windows that do not span the genome (only this statistic's window check allows it)
+        ws = case["fine"]
+        a = draw(st.integers(0, len(ws) - 2))
+        b = draw(st.integers(a + 1, len(ws) - 1))
+        case["kind"], case["coarse"] = "list", ws[a:b + 1]
+    form = draw(st.sampled_from(["none", "flat", "lists", "lists"]))
+    if form == "flat" and case["stat"] == "genetic_relatedness_matrix":
+        form = "lists"  # its docstring asks for a list of lists (a flat list fails in len())
+    if form == "none":
+        sets = [[u] for u in smp]
+    elif form == "flat":
+        k = draw(st.integers(1, len(smp)))
+        sets = [[u] for u in draw(st.permutations(smp))[:k]]
+    else:
+        sets = draw_sample_sets(draw, spec, 1, 4, disjoint=True)
+        flat = [u for x in sets for u in x]
+        if len(flat) != len(set(flat)):  # fewer samples than sets: fall back to singletons
+            sets = [[u] for u in smp]
+    case.update(form=form, sets=sets)
+    case["num_threads"] = draw(st.sampled_from(THREADS))
+    case["repeat"] = draw(st.integers(1, 3))
+    return case
+
+
+def run_matrix(case, ctx):
+    import tskit
+
+    spec = case["spec"]
+    stat, mode, sn = case["stat"], case["mode"], case["span_normalise"]
+    ts = gen.build_tables(spec, tskit).tree_sequence()
+    L = F(spec["L"])
+    sets = case["sets"]
+    K = len(sets)
+    kind = case["kind"]
+    wl = O.explicit_windows(spec, kind, case["coarse"])
+    partial = wl[0] != 0.0 or wl[-1] != L
+    common_labels(ctx, spec, wl, case["fine"], sorted({u for x in sets for u in x}))
+    ctx.label(f"{stat}/{mode}")
+    ctx.label("partial_windows", partial)
+    ctx.label("form=" + case["form"])
+    ctx.label("windows=" + str(kind))
+    ctx.label(f"num_threads={case['num_threads']}")
+    ctx.label("threads>1", case["num_threads"] > 1)
+
+    def call(windows, num_threads):
+        kw = dict(windows=windows, mode=mode, span_normalise=sn, num_threads=num_threads)
+        meth = getattr(ts, stat)
+        if case["form"] == "none":
+            out = meth(**kw)
+        elif case["form"] == "flat":
+            out = meth([x[0] for x in sets], **kw)
+        else:
+            out = meth(sets, **kw)
+        return np.asarray(out, dtype=float)
+
+    warg = win_arg(kind, case["coarse"])
+    got = call(warg, 0)
+    if kind is None:
+        ctx.check(got.shape == (K, K), "shape", f"{stat}: {got.shape} expected {(K, K)}")
+        got = got[np.newaxis]
+    ctx.check(got.shape == (len(wl) - 1, K, K), "shape", f"{stat}: {got.shape}")
+    if stat == "divergence_matrix":
+        exp = O.divergence_matrix(spec, sets, wl, mode, sn)
+        mask = ~np.isnan(exp)  # diagonal of singleton sets: undocumented, not asserted
+        ctx.close(got[mask], exp[mask], f"divergence_matrix[{mode}]")
+        if not partial:
+            gf = call(case["fine"], 0)
+            ef = O.divergence_matrix(spec, sets, case["fine"], mode, sn)
+            mf = ~np.isnan(ef)
+            ctx.close(gf[mf], ef[mf], f"divergence_matrix[{mode}] refined windows")
+            comb = O.combine_refinement(gf, case["fine"], wl, sn)
+            ctx.close(got[mask], comb[mask], f"divergence_matrix[{mode}] refinement")
+    else:
+        one_mut = all(len(model.site_mutations(spec, j)) <= 1 for j in range(len(spec["sites"])))
+        if mode == "branch" or one_mut:
+            # documented: equal to genetic_relatedness(centre=True, proportion=False) in branch mode
+            # and in site mode when every site has at most one mutation
+            idx = [(i, j) for i in range(K) for j in range(K)]
+            exp = O.relatedness_pairs(spec, sets, idx, wl, mode, sn, True, True).reshape(len(wl) - 1, K, K)
+            ctx.label("relatedness_matrix_asserted")
+            ctx.close(got, exp, f"genetic_relatedness_matrix[{mode}]")
+            if K >= 2:  # (fewer sample sets than the arity are rejected by the library)
+                ref = np.asarray(ts.genetic_relatedness(sets, indexes=idx, windows=wl, mode=mode,
+                                                        span_normalise=sn, proportion=False), dtype=float)
+                ctx.close(got, ref.reshape(len(wl) - 1, K, K),
+                          f"genetic_relatedness_matrix[{mode}] vs genetic_relatedness")
+    # (E) worker threads
+    nt = case["num_threads"]
+    if nt > 0:
+        for r in range(case["repeat"]):
+            gt = call(warg, nt)
+            if kind is None:
+                gt = gt[np.newaxis]
+            ctx.check(gt.shape == got.shape, "shape", f"{stat} num_threads={nt}: {gt.shape} expected {got.shape}")
+            ctx.close(gt, got, f"{stat}[{mode}] num_threads={nt} vs num_threads=0 (windows={kind})")
+
+
+# ------------------------------------------------------------------ (C)+(E) GNN, mean_descendants
+@st.composite
+def gnn_case(draw):
+    spec = draw(stat_spec(min_samples=1, max_nodes=10, min_nodes=2))
+    n = len(spec["nodes"])
+    perm = list(draw(st.permutations(list(range(n)))))
+    k = draw(st.integers(1, min(3, n)))
+    cover = draw(st.sampled_from(["any", "any", "samples"]))
+    if cover == "samples":
+        smp = model.samples(spec)
+        perm = [u for u in perm if u in smp]
+        k = min(k, len(perm))
+        sizes = [1] * k
+        rest = len(perm) - k
+        for i in range(k - 1):
+            e = draw(st.integers(0, rest))
+            sizes[i] += e
+            rest -= e
+        sizes[k - 1] += rest
+    else:
+        tot = draw(st.integers(k, n))
+        sizes = [1] * k
+        rest = tot - k
+        for i in range(k):
+            e = draw(st.integers(0, rest))
+            sizes[i] += e
+            rest -= e
+    sets, i = [], 0
+    for sz in sizes:
+        sets.append(sorted(perm[i:i + sz]))
+        i += sz
+    nf = draw(st.integers(1, 5))
+    focal = [draw(st.integers(0, n - 1)) for _ in range(nf)]
+    return dict(spec=spec, sets=sets, focal=focal, cover=cover, num_threads=draw(st.sampled_from(THREADS)),
+                repeat=draw(st.integers(1, 3)))
+
+
+def run_gnn(case, ctx):
+    import tskit
+
+    spec = case["spec"]
+    ts = gen.build_tables(spec, tskit).tree_sequence()
+    sets, focal = case["sets"], case["focal"]
+    labs = gen.spec_labels(spec, model)
+    for l in labs:
+        ctx.label(l)
+    allref = {u for x in sets for u in x}
+    ctx.label("focal_in_reference", any(u in allref for u in focal))
+    ctx.label("focal_not_in_reference", any(u not in allref for u in focal))
+    ctx.label("non_sample_reference", any(not model.is_sample(spec, u) for u in allref))
+    ctx.label("cover=" + case["cover"])
+    ctx.label(f"num_threads={case['num_threads']}")
+    ctx.nt(bool(spec["edges"]) and bool(labs & {"multi_tree", "multi_root", "internal_sample"}))
+    got = np.asarray(ts.genealogical_nearest_neighbours(focal, sets), dtype=float)
+    exp = O.gnn(spec, focal, sets)
+    ctx.check(got.shape == exp.shape, "shape", f"gnn {got.shape} expected {exp.shape}")
+    ctx.label("gnn_nonzero", bool(np.any(exp != 0)))
+    ctx.close(got, exp, "genealogical_nearest_neighbours")
+    nt = case["num_threads"]
+    if nt > 0:
+        ctx.label("threads>focal", nt > len(focal))
+        for r in range(case["repeat"]):
+            gt = np.asarray(ts.genealogical_nearest_neighbours(focal, sets, num_threads=nt), dtype=float)
+            ctx.check(gt.shape == got.shape, "shape", f"gnn num_threads={nt}: {gt.shape} expected {got.shape}")
+            ctx.close(gt, got, f"genealogical_nearest_neighbours num_threads={nt} vs 0")
+    # mean_descendants
+    md = np.asarray(ts.mean_descendants(sets), dtype=float)
+    num, den_ref, den_smp = O.mean_descendants(spec, sets)
+    ctx.check(md.shape == num.shape, "shape", f"mean_descendants {md.shape} expected {num.shape}")
+    with np.errstate(divide="ignore", invalid="ignore"):
+        e_ref = np.where(den_ref[:, None] > 0, num / den_ref[:, None], 0.0)
+        e_smp = np.where(den_smp[:, None] > 0, num / den_smp[:, None], np.nan)
+    same = bool(np.array_equal(den_ref, den_smp))
+    ctx.label("mean_descendants_denominators_coincide", same)
+    tol = 1e-12 + 1e-9 * np.maximum(1.0, np.abs(md))
+    ok_ref = np.abs(md - e_ref) <= tol
+    ok_smp = np.abs(md - e_smp) <= tol  # nan -> False
+    # documentation ambiguity (any sample of the tree sequence vs any member of the given sets):
+    # either denominator is accepted per node, numerators are pinned
+    row_ok = ok_ref.all(axis=1) | ok_smp.all(axis=1)
+    ctx.check(bool(row_ok.all()), "mean_descendants",
+              lambda: f"got {md.tolist()} expected {e_ref.tolist()} (or with sample denominators {e_smp.tolist()})")
+
+
+# ------------------------------------------------------------------ (C) pair_coalescence_counts
+@st.composite
+def forest_ts(draw, k, L, internal_start):
+    """A tree sequence on samples 0..k-1 (time 0, leaves) whose trees are single-rooted and have no
+    unary nodes; internal nodes are private to each tree."""
+    nt = draw(st.integers(1, 3))
+    cuts = sorted(draw(st.lists(st.integers(1, 7), min_size=nt - 1, max_size=nt - 1, unique=True)))
+    bps = [0.0] + [L * c / 8 for c in cuts] + [L]
+    times = [0.0] * k
+    edges = []
+    for i in range(nt):
+        roots = list(range(k))
+        t = 0.0
+        while len(roots) > 1:
+            m = draw(st.integers(2, min(3, len(roots))))
+            pick = list(draw(st.permutations(roots))[:m])
+            t += draw(st.sampled_from([0.5, 1.0, 2.0]))
+            p = len(times)
+            times.append(t)
+            for c in pick:
+                edges.append([bps[i], bps[i + 1], p, c, ""])
+                roots.remove(c)
+            roots.append(p)
+    edges.sort(key=lambda e: (times[e[2]], e[2], e[3], e[0]))
+    nodes = [[1 if u < k else 0, times[u], -1, -1, ""] for u in range(len(times))]
+    return dict(L=L, nodes=nodes, edges=edges, sites=[], mutations=[], individuals=[], populations=[],
+                migrations=[])
+
+
+@st.composite
+def dense_spec(draw, min_k=2, max_k=6):
+    """Coalescent-like trees (every sample under one root in every tree, polytomies allowed) from
+    which a few edges are deleted again on single trees (extra roots, unary nodes, empty trees)."""
+    k = draw(st.integers(min_k, max_k))
+    L = draw(st.sampled_from([1.0, 4.0, 10.0]))
+    spec = draw(forest_ts(k, L, k))
+    ndrop = draw(st.sampled_from([0, 0, 1, 2, 3]))
+    edges = list(spec["edges"])
+    for _ in range(min(ndrop, len(edges))):
+        edges.pop(draw(st.integers(0, len(edges) - 1)))
+    if draw(st.integers(0, 9)) == 0 and edges:
+        left = min(e[0] for e in edges)  # one tree loses all of its edges
+        edges = [e for e in edges if e[0] != left]
+    spec["edges"] = edges
+    return spec
+
+
+@st.composite
+def coal_case(draw):
+    if draw(st.integers(0, 2)) > 0:
+        spec = draw(dense_spec())
+    else:
+        spec = draw(stat_spec(min_samples=draw(st.sampled_from([2, 3, 4, 5])), max_nodes=10,
+                              leaf_samples=draw(st.booleans())))
+    smp = model.samples(spec)
+    if len(smp) < 2:
+        sets = [list(smp)]
+    else:
+        sets = draw_sample_sets(draw, spec, 1, 3, disjoint=True)
+        flat = [u for x in sets for u in x]
+        if len(flat) != len(set(flat)):
+            sets = [list(smp)]
+    ns = len(sets)
+    case = dict(spec=spec, sets=sets, sets_none=(sets == [list(smp)] and draw(st.booleans())))
+    if ns <= 2 and draw(st.booleans()):
+        case["indexes"] = None
+    else:
+        case["indexes"] = [[draw(st.integers(0, ns - 1)), draw(st.integers(0, ns - 1))]
+                           for _ in range(draw(st.integers(1, 3)))]
+    kind, coarse, fine = draw_windows(draw, spec, kinds=(None, "list", "list"))
+    case.update(kind=kind, coarse=coarse, fine=fine)
+    case["span_normalise"] = draw(st.booleans())
+    case["pair_normalise"] = draw(st.booleans())
+    if draw(st.booleans()):
+        case["time_windows"] = "nodes"
+    else:
+        times = sorted({F(x[1]) for x in spec["nodes"]})
+        cand = sorted(set(times) | {t + 0.25 for t in times} | {times[0] - 1.0, times[-1] + 1.0})
+        k = draw(st.integers(2, min(5, len(cand))))
+        tw = sorted(draw(st.permutations(cand))[:k])
+        if draw(st.booleans()):
+            tw = sorted(set(tw) | {cand[0]})
+        if draw(st.booleans()):
+            tw = tw + ["inf"]
+        case["time_windows"] = tw
+    return case
+
+
+def run_coal(case, ctx):
+    import tskit
+
+    spec = case["spec"]
+    ts = gen.build_tables(spec, tskit).tree_sequence()
+    sets = case["sets"]
+    n = len(spec["nodes"])
+    labs = gen.spec_labels(spec, model)
+    for l in labs:
+        ctx.label(l)
+    if any(len(x) == 0 for x in sets):
+        ctx.label("no_samples_skipped")
+        return
+    members = sorted({u for x in sets for u in x})
+    # domain: no member of the sets is an ancestor of another member (the docstring does not say
+    # whether a sample "coalesces" with its own descendants)
+    for a, b, par in O.tree_intervals(spec):
+        for u in members:
+            if any(v in members for v in model.path_to_root(par, u)[1:]):
+                ctx.label("nested_samples_skipped")
                 return
-            raise
+    wl = O.explicit_windows(spec, case["kind"], case["coarse"])
+    sn, pn = case["span_normalise"], case["pair_normalise"]
+    if sn and "gap" in labs:
+        # span_normalise divides by the "non-missing" span; only asserted when no tree is empty
+        ctx.label("span_normalise_dropped_for_gap")
+        sn = False
+    tw = case["time_windows"]
+    if tw == "nodes":
+        bins = list(range(n))
+        nb = n
+        targ = "nodes"
+    else:
+        tw = [F(x) for x in tw]
+        nb = len(tw) - 1
+        bins = []
+        for u in range(n):
+            t = model.time(spec, u)
+            b = -1
+            for i in range(nb):
+                if tw[i] <= t < tw[i + 1]:
+                    b = i
+            bins.append(b)
+        if all(b < 0 for b in bins):
+            ctx.label("no_node_in_time_windows_skipped")
+            return
+        targ = np.array(tw)
+    ctx.label("time_windows=" + ("nodes" if case["time_windows"] == "nodes" else "breaks"))
+    idx = case["indexes"]
+    full_idx = idx if idx is not None else ([[0, 0]] if len(sets) == 1 else [[0, 1]])
+    ctx.label("indexes_none", idx is None)
+    ctx.label("windows=" + str(case["kind"]))
+    ctx.label("pair_normalise", pn)
+    ctx.label("span_normalise", sn)
 
-    return wrapped
+    def call(windows):
+        kw = dict(windows=windows, span_normalise=sn, pair_normalise=pn, time_windows=targ)
+        if idx is not None:
+            kw["indexes"] = [tuple(t) for t in idx]
+        if not case["sets_none"]:
+            kw["sample_sets"] = sets
+        return np.asarray(ts.pair_coalescence_counts(**kw), dtype=float)
+
+    def undrop(g, nw, given):
+        shape = ([nw] if given else []) + ([len(full_idx)] if idx is not None else []) + [nb]
+        ctx.check(g.shape == tuple(shape), "output dimensions", f"pair_coalescence_counts {g.shape} expected {tuple(shape)}")
+        if idx is None:
+            g = g[..., np.newaxis, :]
+        if not given:
+            g = g[np.newaxis]
+        return g
+
+    got = undrop(call(win_arg(case["kind"], case["coarse"])), len(wl) - 1, case["kind"] is not None)
+    exp = O.pair_coalescence_counts(spec, sets, full_idx, wl, bins, nb, sn, pn)
+    ctx.label("coalescences", bool(np.any(exp != 0)))
+    ctx.nt(bool(np.any(exp != 0)) and bool(labs & {"multi_tree", "multi_root", "polytomy"}))
+    deg = np.array([(len(sets[i]) < 2) if i == j else False for i, j in full_idx]) & pn
+    keep = ~deg
+    ctx.close(got[:, keep], exp[:, keep], "pair_coalescence_counts")
+    fine = case["fine"]
+    gf = undrop(call(fine), len(fine) - 1, True)
+    ef = O.pair_coalescence_counts(spec, sets, full_idx, fine, bins, nb, sn, pn)
+    ctx.close(gf[:, keep], ef[:, keep], "pair_coalescence_counts refined windows")
+    ctx.close(got[:, keep], O.combine_refinement(gf, fine, wl, sn)[:, keep], "pair_coalescence_counts refinement")
 
 
-run_afs, run_weighted = _dev(run_afs, classify_afs), _dev(run_weighted, classify_weighted)
+# ------------------------------------------------------------------ (C) LdCalculator r2
+@st.composite
+def ld_case(draw):
+    base = stat_spec(min_samples=draw(st.sampled_from([2, 3, 4, 5])), max_nodes=10, max_sites=5,
+                     max_muts_per_site=1, mut_times="unknown")
+    if draw(st.integers(0, 5)) > 0:
+        base = base.filter(lambda sp: len(sp["sites"]) >= 2 and bool(sp["edges"]))
+    spec = draw(base)
+    # LdCalculator only supports sites with exactly one, non-silent mutation (documented): give
+    # every site one such mutation
+    n = len(spec["nodes"])
+    spec = dict(spec)
+    muts = []
+    for j, site in enumerate(spec["sites"]):
+        have = [m for m in spec["mutations"] if m[0] == j]
+        node = have[0][1] if have else draw(st.integers(0, n - 1))
+        derived = have[0][2] if have else site[1]
+        if derived == site[1]:
+            derived = draw(st.sampled_from([x for x in "ACGT" if x != site[1]]))
+        muts.append([j, node, derived, -1, None, ""])
+    spec["mutations"] = muts
+    m = len(spec["sites"])
+    case = dict(spec=spec)
+    if m:
+        case["a"] = draw(st.integers(0, m - 1))
+        case["direction"] = draw(st.sampled_from([1, -1]))
+        case["max_sites"] = draw(st.sampled_from([None, None, 0, 1, 2, 3]))
+        pos = [F(x[0]) for x in spec["sites"]]
+        dists = sorted({abs(p - pos[case["a"]]) for p in pos})
+        case["max_distance"] = draw(st.sampled_from([None, None] + dists + [d / 2 for d in dists if d > 0]))
+    return case
+
+
+def run_ld(case, ctx):
+    import tskit
+
+    spec = case["spec"]
+    ts = gen.build_tables(spec, tskit).tree_sequence()
+    m = len(spec["sites"])
+    labs = gen.spec_labels(spec, model)
+    for l in labs:
+        ctx.label(l)
+    ctx.label(f"sites={min(m, 3)}{'+' if m >= 3 else ''}")
+    ctx.nt(m >= 2 and bool(spec["edges"]))
+    ld = tskit.LdCalculator(ts)
+
+    def cmp(got, exp, what):
+        if exp is None:
+            ctx.label("degenerate_frequency")
+            ctx.check(not math.isfinite(got), what, f"degenerate allele frequency but finite r2 {got}")
+        else:
+            ctx.close(got, exp, what)
+
+    if m == 0:
+        ctx.eq(np.asarray(ld.r2_matrix()).shape, (0, 0), "r2_matrix shape")
+        return
+    E = [[O.r2(spec, a, b) for b in range(m)] for a in range(m)]
+    for a in range(m):
+        for b in range(m):
+            cmp(ld.r2(a, b), E[a][b], f"r2({a},{b})")
+    A = np.asarray(ld.r2_matrix(), dtype=float)
+    ctx.check(A.shape == (m, m), "r2_matrix", f"shape {A.shape}")
+    for a in range(m):
+        for b in range(m):
+            if a == b:
+                ctx.check(A[a, b] == 1.0, "r2_matrix", "diagonal is not 1")
+            else:
+                cmp(A[a, b], E[a][b], f"r2_matrix[{a},{b}]")
+    a, d = case["a"], case["direction"]
+    pos = [F(x[0]) for x in spec["sites"]]
+    others = list(range(a + 1, m)) if d == 1 else list(range(a - 1, -1, -1))
+    exp_list = []
+    for b in others:
+        if case["max_distance"] is not None and abs(pos[b] - pos[a]) > case["max_distance"]:
+            break
+        if case["max_sites"] is not None and len(exp_list) >= case["max_sites"]:
+            break
+        exp_list.append(E[a][b])
+    kw = dict(direction=tskit.FORWARD if d == 1 else tskit.REVERSE)
+    if case["max_sites"] is not None:
+        kw["max_sites"] = case["max_sites"]
+    if case["max_distance"] is not None:
+        kw["max_distance"] = case["max_distance"]
+    arr = np.asarray(ld.r2_array(a, **kw), dtype=float)
+    ctx.label("r2_array_truncated", len(exp_list) < len(others))
+    ctx.check(len(arr) == len(exp_list), "r2_array", f"length {len(arr)} expected {len(exp_list)} ({kw}, a={a})")
+    for got, e in zip(arr, exp_list):
+        cmp(float(got), e, "r2_array")
+
+
+# ------------------------------------------------------------------ (C) KC and RF distances
+@st.composite
+def dist_case(draw):
+    k = draw(st.integers(2, 6))
+    L = draw(st.sampled_from([1.0, 4.0, 10.0]))
+    s1 = draw(forest_ts(k, L, k))
+    s2 = draw(forest_ts(k, L, k))
+    return dict(spec1=s1, spec2=s2, lambda_=draw(st.sampled_from([0.0, 1.0, 0.5, 0.25])))
+
+
+def run_dist(case, ctx):
+    import tskit
+
+    s1, s2, lam = case["spec1"], case["spec2"], case["lambda_"]
+    ts1 = gen.build_tables(s1, tskit).tree_sequence()
+    ts2 = gen.build_tables(s2, tskit).tree_sequence()
+    L = F(s1["L"])
+    iv1, iv2 = O.tree_intervals(s1), O.tree_intervals(s2)
+    ctx.label("multi_tree", len(iv1) > 1 or len(iv2) > 1)
+    ctx.label("polytomy", "polytomy" in gen.spec_labels(s1, model) | gen.spec_labels(s2, model))
+    ctx.label(f"lambda={lam}")
+    ctx.nt(len(s1["nodes"]) > 3)
+    total = 0.0
+    differ = False
+    for a1, b1, p1 in iv1:
+        t1 = ts1.at(a1, sample_lists=True)
+        for a2, b2, p2 in iv2:
+            t2 = ts2.at(a2, sample_lists=True)
+            e = O.kc_distance(s1, p1, s2, p2, lam)
+            differ = differ or e > 0
+            ctx.close(t1.kc_distance(t2, lam), e, "Tree.kc_distance")
+            ctx.close(t2.kc_distance(t1, lam), e, "Tree.kc_distance (symmetric)")
+            total += e * O.overlap(a1, b1, a2, b2)
+            rf = len(O.clades(s1, p1) ^ O.clades(s2, p2))
+            ctx.eq(int(t1.rf_distance(t2)), rf, "Tree.rf_distance")
+    ctx.label("trees_differ", differ)
+    ctx.close(ts1.kc_distance(ts2, lam), total / L, "TreeSequence.kc_distance")
+    ctx.close(ts2.kc_distance(ts1, lam), total / L, "TreeSequence.kc_distance (symmetric)")
+    # trees of one tree sequence against each other
+    for a1, b1, p1 in iv1:
+        for a2, b2, p2 in iv1:
+            t1, t2 = ts1.at(a1, sample_lists=True), ts1.at(a2, sample_lists=True)
+            ctx.close(t1.kc_distance(t2, lam), O.kc_distance(s1, p1, s1, p2, lam), "Tree.kc_distance within one ts")
+            ctx.eq(int(t1.rf_distance(t2)), len(O.clades(s1, p1) ^ O.clades(s1, p2)), "Tree.rf_distance within one ts")
+    ctx.close(ts1.kc_distance(ts1, lam), 0.0, "kc_distance(self)")
+
+
+# ------------------------------------------------------------------ (E) Python threads sharing one tree sequence
+@st.composite
+def shared_case(draw):
+    spec = draw(stat_spec(min_samples=4, max_nodes=10))
+    return dict(spec=spec, nthreads=draw(st.sampled_from([2, 3, 4, 8])), repeat=draw(st.integers(1, 3)),
+                order=draw(st.permutations(list(range(10)))),
+                windows=draw_windows(draw, spec, kinds=("list",))[1])
+
+
+def run_shared(case, ctx):
+    import threading
+
+    import tskit
+
+    spec = case["spec"]
+    ts = gen.build_tables(spec, tskit).tree_sequence()
+    smp = model.samples(spec)
+    n = len(spec["nodes"])
+    labs = gen.spec_labels(spec, model)
+    for l in labs:
+        ctx.label(l)
+    ctx.label(f"nthreads={case['nthreads']}")
+    ctx.nt("multi_tree" in labs and bool(spec["edges"]))
+    half = len(smp) // 2
+    A, B = smp[:half], smp[half:]
+    wl = case["windows"]
+    W = np.array([[float((i * 7 + c * 3) % 5) - 1.5 for c in range(2)] for i in range(len(smp))])
+    jobs = [
+        lambda: ts.diversity([A, B], windows=wl, mode="branch"),
+        lambda: ts.divergence([A, B], windows=wl, mode="site"),
+        lambda: ts.divergence_matrix([A, B], windows=wl, mode="branch"),
+        lambda: ts.divergence_matrix(windows=wl, mode="site", num_threads=2),
+        lambda: ts.allele_frequency_spectrum([A, B], windows=wl, mode="branch", polarised=True),
+        lambda: ts.genetic_relatedness_vector(W, windows=wl, mode="branch", span_normalise=False),
+        lambda: ts.genealogical_nearest_neighbours(smp, [A, B]),
+        lambda: ts.mean_descendants([A, B]),
+        lambda: ts.f2([A, B], windows=wl, mode="node"),
+        lambda: ts.general_stat(W, lambda x: x * x, 2, windows=wl, mode="branch", strict=False),
+    ]
+    jobs = [jobs[i] for i in case["order"]]
+    serial = [np.asarray(j(), dtype=float) for j in jobs]
+    K = case["nthreads"]
+    for r in range(case["repeat"]):
+        results = [None] * K
+        errors = []
+        barrier = threading.Barrier(K)
+
+        def work(t):
+            try:
+                barrier.wait()
+                out = []
+                for q in range(len(jobs)):
+                    i = (q + t) % len(jobs)
+                    out.append((i, np.asarray(jobs[i](), dtype=float)))
+                results[t] = out
+            except BaseException as e:  # re-raised in the main thread below
+                errors.append(e)
+
+        threads = [threading.Thread(target=work, args=(t,)) for t in range(K)]
+        for th in threads:
+            th.start()
+        for th in threads:
+            th.join()
+        if errors:
+            raise errors[0]
+        for t in range(K):
+            for i, val in results[t]:
+                ctx.check(val.shape == serial[i].shape and bool(np.array_equal(val, serial[i], equal_nan=True)),
+                          "concurrent == serial",
+                          lambda: f"job {case['order'][i]} in thread {t}: {val!r} expected {serial[i]!r}")
+
 
 SUBCHECKS = [
     SubCheck("C08.general_stat", run_gs, strategy=gs_case, quick=1200, thorough=36000, rule=NT,
              floors={}),
     SubCheck("C08.named", run_named, strategy=named_case, quick=1200, thorough=36000, rule=NT, floors={}),
-    SubCheck("C08.afs", run_afs, strategy=afs_case, quick=800, thorough=24000, rule=NT, floors={},
-             classify=classify_afs),
+    SubCheck("C08.afs", run_afs, strategy=afs_case, quick=800, thorough=24000, rule=NT, floors={}),
     SubCheck("C08.weighted", run_weighted, strategy=weighted_case, quick=1000, thorough=30000, rule=NT,
              floors={}, classify=classify_weighted),
+    SubCheck("C08.matrix_threads", run_matrix, strategy=matrix_case, quick=800, thorough=24000, rule=NT, floors={}),
+    SubCheck("C08.gnn_mean_descendants", run_gnn, strategy=gnn_case, quick=800, thorough=24000,
+             rule=">=1 edge and (>=2 trees or >=2 roots or an internal sample)", floors={}),
+    SubCheck("C08.pair_coalescence", run_coal, strategy=coal_case, quick=600, thorough=18000,
+             rule="some pair coalesces and (>=2 trees or >=2 roots or a polytomy)", floors={}),
+    SubCheck("C08.ld_r2", run_ld, strategy=ld_case, quick=600, thorough=18000,
+             rule=">=2 single-mutation sites and >=1 edge", floors={}),
+    SubCheck("C08.kc_rf", run_dist, strategy=dist_case, quick=400, thorough=12000,
+             rule=">=3 samples (two tree sequences of single-rooted trees without unary nodes)", floors={}),
+    SubCheck("C08.shared_threads", run_shared, strategy=shared_case, quick=150, thorough=4500,
+             rule=">=2 trees, K>=2 Python threads running 10 statistics on one shared tree sequence", floors={}),
 ]
 
-_PROBE_AFS = dict(
-    L=2.0, nodes=[[1, 0.0, -1, -1, ""], [1, 1.0, -1, -1, ""]], edges=[[1.0, 2.0, 1, 0, ""]],
-    sites=[], mutations=[], individuals=[], populations=[], migrations=[])
 _PROBE_GRV = dict(
     L=4.0, nodes=[[1, 0.0, -1, -1, ""], [1, 0.0, -1, -1, ""], [0, 1.0, -1, -1, ""]],
     edges=[[0.0, 4.0, 2, 0, ""], [0.0, 4.0, 2, 1, ""]],
     sites=[], mutations=[], individuals=[], populations=[], migrations=[])
 PROBES = {
-    KEY_AFS_GAP: ("C08.afs", dict(
-        spec=_PROBE_AFS, mode="branch", polarised=True, span_normalise=False, kind=None, coarse=None,
-        fine=[0.0, 0.5, 2.0], form="lists", sets=[[0]])),
     KEY_GRV_SPAN: ("C08.weighted", dict(
         spec=_PROBE_GRV, stat="genetic_relatedness_vector", mode="branch", span_normalise=True, kind=None,
         coarse=None, fine=[0.0, 1.0, 4.0], W=[[1.0], [0.0]], centre=False, nodes=None)),
